@@ -1,5 +1,6 @@
-// Forcing TU for ikos::linear_expression / linear_constraint (include/crab/types/linear_constraints.hpp;
-// linear_constraint_system is NOT instantiated: its std::vector / unordered_set / unordered_map code is not covered).  No logic of its own: the real header, a trivial indexable
+// Forcing TU for ikos::linear_expression / linear_constraint / linear_constraint_system
+// (include/crab/types/linear_constraints.hpp; the libstdc++ containers behind linear_constraint_system are modelled,
+// units/lincst/sysmodel.c).  No logic of its own: the real header, a trivial indexable
 // variable name VN (vn.h), explicit instantiations of the real class templates for Number = z_number and
 // one-line shims that only force the instantiation of function / member templates nothing else names.
 // The contracts (contracts.c) are stated on the REAL mangled instantiations, not on the shims.
@@ -21,6 +22,7 @@ struct RM {
 };
 template class ikos::linear_expression<Z, VN>;
 template class ikos::linear_constraint<Z, VN>;
+template class ikos::linear_constraint_system<Z, VN>;
 extern "C" {
 // forces linear_constraint_impl::strict_to_non_strict_inequality<VN> (the z_number overload)
 void lincst_force_s2ns(LC *r, const LC *c) { new (r) LC(ikos::linear_constraint_impl::strict_to_non_strict_inequality(*c)); }
